@@ -95,6 +95,17 @@ def differs(im, mm, debug):
     return None
 
 
+def explains(target, mm):
+    """does the reference run mm (with some switches on) reproduce the implementation run?
+    'exact', 'line' (everything but the line reported for a division by zero: D19) or None"""
+    d = differs(target, mm, True)
+    if d is None:
+        return 'exact'
+    if d == 'error-line' and target[1][1] == 1:
+        return 'line'
+    return None
+
+
 def text_of(evs):
     return ''.join(chr(c) for e in (evs or []) if e[0] == 1 for c in e[1])
 
@@ -145,48 +156,49 @@ class Runner:
         return out
 
     def explain(self, progs, targets):
-        """for each program the minimal set of quirk switches under which the
-        reference interpreter shows behaviour `targets[i]` (an implementation run
-        with debug info), or None"""
+        """for each program (qs, mode): the minimal set of quirk switches under which
+        the reference interpreter shows behaviour `targets[i]` (an implementation run
+        with debug info), mode 'exact' or 'line' (see `explains`); (None, None) when
+        no setting does"""
+        import itertools
         n = len(progs)
-        res = [None] * n
+        res = [(None, None)] * n
         if not n:
             return res
-        cur = [list(ALLQ) for _ in range(n)]
-        mm = self.model(progs, ALLQ)
-        alive = [i for i in range(n) if mm[i] is not None and differs(targets[i], mm[i], True) is None]
+
+        def run(idxs, qsets):
+            mo = vlib.run_model(self.exe, [[1, progs[i]['sx'], qs, progs[i]['script']['lines'],
+                                            progs[i]['script']['rnd'], progs[i]['script']['timer'], FUEL]
+                                           for i, qs in zip(idxs, qsets)])
+            return [None if isinstance(m, str) else explains(targets[i], norm_model(m))
+                    for i, m in zip(idxs, mo)]
+        cur = {}
+        mode = {}
+        idxs = list(range(n))
+        for i, md in zip(idxs, run(idxs, [list(ALLQ)] * n)):
+            if md:
+                cur[i], mode[i] = list(ALLQ), md
         for k in ALLQ:
+            alive = sorted(cur)
             if not alive:
                 break
             trial = [[x for x in cur[i] if x != k] for i in alive]
-            mo = vlib.run_model(self.exe, [[1, progs[i]['sx'], trial[j], progs[i]['script']['lines'],
-                                            progs[i]['script']['rnd'], progs[i]['script']['timer'], FUEL]
-                                           for j, i in enumerate(alive)])
-            for j, i in enumerate(alive):
-                if isinstance(mo[j], str):
-                    continue
-                if differs(targets[i], norm_model(mo[j]), True) is None:
-                    cur[i] = trial[j]
-        for i in alive:
-            res[i] = cur[i]
+            for i, t, md in zip(alive, trial, run(alive, trial)):
+                if md:
+                    cur[i], mode[i] = t, md
         # programs that all switches together do not explain (two defects can mask each
         # other): try every single switch, then every pair
-        import itertools
-        rest = [i for i in range(n) if res[i] is None and mm[i] is not None]
+        rest = [i for i in range(n) if i not in cur]
         cands = [[k] for k in ALLQ] + [list(c) for c in itertools.combinations(ALLQ, 2)]
         for qs in cands:
             if not rest:
                 break
-            mo = vlib.run_model(self.exe, [[1, progs[i]['sx'], qs, progs[i]['script']['lines'],
-                                            progs[i]['script']['rnd'], progs[i]['script']['timer'], FUEL]
-                                           for i in rest])
-            still = []
-            for j, i in enumerate(rest):
-                if not isinstance(mo[j], str) and differs(targets[i], norm_model(mo[j]), True) is None:
-                    res[i] = qs
-                else:
-                    still.append(i)
-            rest = still
+            for i, md in zip(list(rest), run(rest, [qs] * len(rest))):
+                if md:
+                    cur[i], mode[i] = qs, md
+            rest = [i for i in rest if i not in cur]
+        for i in cur:
+            res[i] = (cur[i], mode[i])
         return res
 
 
@@ -237,8 +249,13 @@ def judge_programs(ctx, rn, suite, progs, sigfmt, describe=None):
     if pending:
         idx = [i for i, _ in pending]
         sets = rn.explain([progs[i] for i in idx], [impl[i][1] for i in idx])
-        for (i, det), qs in zip(pending, sets):
+        for (i, det), (qs, mode) in zip(pending, sets):
             tgt, mm = impl[i][1], ref[i]
+            if mode == 'line':
+                # everything is reproduced except the line reported for a division by zero (D19)
+                ctx.report('C01/error-line(division-by-zero)', det, True)
+                if qs == []:
+                    continue
             if qs:
                 for k in qs:
                     ctx.report(sigfmt(progs[i], QUIRKS[k]), dict(det, quirks=[QUIRKS[x] for x in qs]), True)
@@ -446,6 +463,9 @@ def random_suite(ctx, rn, tier, seed):
         f'conditions, risky values (type limits, out-of-range subscripts, zero divisors), fully '
         f'bracketed text, procedure-heavy, constant sub-expressions (-O1/-O2 hazards); each at '
         f'the six configurations; non-trivial = distinct program')
+    if os.environ.get('C01_ONLY'):      # development aid
+        keep = {int(x) for x in os.environ['C01_ONLY'].split(',')}
+        progs = [p for p in progs if p['index'] in keep]
     for i in range(0, len(progs), 400):
         chunk = progs[i:i + 400]
         judge_programs(ctx, rn, 'random', chunk, lambda p, name: f'C01/semantics({name})',
